@@ -487,6 +487,17 @@ def r09_6(ck):
     ck.require(ok, 'R09.6', mv, dps[0] if dps else mv.node.name,
                'the source is detached after it was attached at the target',
                None)
+    if dps and an:
+        ok = cfg.must_pass(cfg.node(an[0]), cfg.exit,
+                           {cfg.node(c) for c in dps})
+        ck.require(ok, 'R09.6', mv, dps[0],
+                   'the source is detached by the move itself, on every '
+                   'path, before the next operation of the update runs',
+                   'Store.move can return with the moved subtree still '
+                   'attached at its source (detaching is conditional / left '
+                   'to the caller): a later operation of the same update '
+                   'that addresses the freed key (a _generate of that key) '
+                   'then works on the moved node', dps[0])
 
 
 def r09_7(ck):
